@@ -11,6 +11,7 @@ C11, analytic part: the real functions satisfy the hypotheses of the algebraic t
 (non-vacuity), the hand model of `angleMod` lands in `[-π, π]` and is congruent mod 2π, and the
 two-argument arctangent on ℝ.
 -/
+set_option autoImplicit false
 set_option linter.unusedSectionVars false
 set_option linter.unusedSimpArgs false
 namespace ImathVerif.Euler
